@@ -112,7 +112,7 @@ def run(ctx):
                where=S.func, node=S.func.node, construct=f"init {init} shape {shp}", message="binned output must start as zeros with one entry per unmasked pixel of the same mask")
     # index tables
     sub_kernel(ctx, p, K, f"{OU}:slim_index_for_sub_slim_index_via_mask_2d_from", dict(mask_2d=M, sub_size=SS), lambda y, x, y1, x1, sub, k, ks: {(ks,): k})
-    sub_kernel(ctx, p, K, f"{OU}:native_sub_index_for_slim_sub_index_2d_from", dict(mask_2d=M, sub_size=SS), lambda y, x, y1, x1, sub, k, ks: {(ks, S_(":")): (y * sub + y1, x * sub + x1)})
+    sub_kernel(ctx, p, K, f"{OU}:native_sub_index_for_slim_sub_index_2d_from", dict(mask_2d=M, sub_size=SS), lambda y, x, y1, x1, sub, k, ks: {(ks, ZERO): y * sub + y1, (ks, ONE): x * sub + x1})
     # sub-slim index of each sub-native index: slim traversal of the sub mask
     f = p.func(f"{OU}:sub_slim_index_for_sub_native_index_from")
     S = K.summarize(f)
@@ -263,10 +263,14 @@ def decorator(ctx, p):
     f = m.functions.get("perform_over_sampling_from")
     if f is None:
         raise AnchorMissing("perform_over_sampling_from")
-    tests = [norm_text(n.test) for n in f.body_nodes() if isinstance(n, ast.If)]
-    ok = "grid.over_sampling.sub_size == 1" in tests and "isinstance(grid, Grid2D)" in tests and "grid.over_sampling is not None" in tests
-    offs = [n for n in f.body_nodes() if isinstance(n, ast.Assign) and norm_text(n.targets[0]) == "perform_over_sampling" and isinstance(n.value, ast.Constant) and n.value.value is False]
-    ctx.ob(rule, f.key, ok and len(offs) >= 2, where=f, node=f.node, construct=str(tests), message="over-sampling must be switched off when the uniform sub-size is 1 (plain evaluation)")
+    # decided on the paths of the function, not on how its ifs are nested: it answers True only for a Grid2D with an over-sampling that is not already being performed, and never when the uniform sub-size is 1
+    paths = wire.decision_paths(f)
+    yes = [c for c, v in paths if v is True]
+    need = [("kwargs.get('over_sampling_being_performed')", False), ("isinstance(grid, Grid2D)", True), ("grid.over_sampling is not None", True)]
+    ok = bool(yes) and all(all(x in c for x in need) for c in yes) and not any(("grid.over_sampling.sub_size == 1", True) in c for c in yes) \
+        and any(("grid.over_sampling.sub_size == 1", True) in c and v is False for c, v in paths) and all(v in (True, False) for c, v in paths)
+    tests = sorted({t for c, v in paths for t, _ in c})
+    ctx.ob(rule, f.key, ok, where=f, node=f.node, construct=f"{len(paths)} paths, {len(yes)} answering True; conditions {tests}"[:300], message="over-sampling must be switched off when the uniform sub-size is 1 (plain evaluation)")
 
 
 def iterate(ctx, p, K):
